@@ -353,6 +353,8 @@ class Interp:
         # callees that only derive references / read through their `&mut` arguments (no havoc)
         self.pure = [re.compile(p) for p in PURE_CALLEES]
         self.memo_shared = False
+        self.log_asserts = False
+        self.concrete_iters = False
         self.choice_effects = False
 
     # ------------------------------------------------------------------ heap helpers
@@ -745,8 +747,15 @@ class Interp:
                 if isinstance(a, Adt) and a.name == "!":
                     return a.fields[0]
                 return Top("not")
+            if rv["op"] == "PtrMetadata" and isinstance(a, Ref):
+                # the length of the slice behind a reference: same node as a logged `slice::len(&s)` call
+                return Adt("fn:slice::len", 0, (a,))
             return Top("unop")
         if k == "repeat":
+            n = rv.get("n")
+            if isinstance(n, int) and 0 < n <= 64 and self.concrete_iters:
+                e = self.operand(frame, rv["op"], st)
+                return Adt("array", 0, tuple(e for _ in range(n)))      # small literal arrays keep their length
             return Top("array")
         return Top("rv:" + k)
 
@@ -1062,6 +1071,20 @@ class Interp:
                 ret = self.concretize(st.heap.get((frame.id, 0), UNIT), st)
                 outcomes.append(Outcome(ret, st))
                 return
+            if k == "assert" and self.log_asserts:
+                # what the assertion is about (bounds / overflow / division), for the linear prover: operands as values
+                ops = [self.abstract(self.operand(frame, o, st), st) for o in t.get("ops", [])]
+                tys = []
+                for o in t.get("ops", []):
+                    if o["k"] == "const":
+                        tys.append(body.tystr(o["ty"]))
+                    elif not o["place"]["p"]:
+                        tys.append(body.tystr(body.locals[o["place"]["l"]]["ty"]))
+                    else:
+                        tys.append(None)
+                cv = self.concretize(self.operand(frame, t["cond"], st), st)
+                st.effect(("assert", t["msg"], t.get("binop"), tuple(ops), tuple(tys),
+                           (cv.v if isinstance(cv, Const) else None), t.get("expected"), t.get("line")))
             if k in ("drop", "assert"):
                 bi, si = t["target"], 0
                 continue
@@ -1119,6 +1142,12 @@ class Interp:
         self._model_cache[path] = m
         return m
 
+    def find_models(self, path):
+        k = ("all", path)
+        if k not in self._model_cache:
+            self._model_cache[k] = [fn for (rx, fn) in self.models if rx.search(path)]
+        return self._model_cache[k]
+
     def do_call(self, frame, bi, t, st):
         """-> list of (ret value, state)"""
         f = t["func"]
@@ -1141,12 +1170,19 @@ class Interp:
     def call_fn(self, fn, args, st, site, frame):
         path = fn.get("rpath") if fn.get("resolved") else fn["full"]
         decl = fn["path"]
-        model = self.find_model(path) or self.find_model(decl) or self.find_model(fn["full"]) \
-            or (self.find_model(fn["rfull"]) if fn.get("rfull") else None)
-        if model is not None:
-            r = model(self, fn, args, st, site, frame)
-            if r is not None:
-                return r
+        # every model that matches one of the callee's names is tried, in order, until one applies (a model may
+        # decline by returning None, e.g. the concrete-iterator models on a value they do not own)
+        tried = []
+        for nm in (path, decl, fn["full"], fn.get("rfull")):
+            if not nm:
+                continue
+            for model in self.find_models(nm):
+                if model in tried:
+                    continue
+                tried.append(model)
+                r = model(self, fn, args, st, site, frame)
+                if r is not None:
+                    return r
         body = None
         if fn.get("resolved"):
             body = self.prog.bodies.get(fn["rkey"])
